@@ -221,8 +221,8 @@ def cells(tier):
                 if iface == "tfdataset" and shuffled:
                     continue
                 out.append(dict(iface=iface, layout=layout, shuffled=shuffled))
-    pc = [dict(T=1, nmax=4, variant="fail"), dict(T=2, nmax=3, variant="fail")] if tier == "quick" else \
-         [dict(T=1, nmax=6, variant="fail"), dict(T=2, nmax=4, variant="fail"), dict(T=3, nmax=2, variant="fail")]
+    pc = [dict(T=1, nmax=4, variant="fail"), dict(T=2, nmax=2, variant="fail")] if tier == "quick" else \
+         [dict(T=1, nmax=6, variant="fail"), dict(T=2, nmax=3, variant="fail"), dict(T=3, nmax=1, variant="fail")]
     out += [dict(pocomp=c) for c in pc]
     out += [dict(mirx=1, N=(5 if tier == "quick" else 8), T=(4 if tier == "quick" else 6))]
     if tier == "quick":
